@@ -249,13 +249,16 @@ def judge_with_agreement(pre, op, out, ctx):
 
 def shards(tier, seed):
     out = []
-    depth = 4 if tier == 'thorough' else 3
+    depth = 9 if tier == 'thorough' else 3
     for client in (True, False):
-        entries, closed, keys = F.get_catalogue(client, depth)
-        sel = F.select_entries(entries, tier, seed, quick_depth=2, quick_sample=10)
-        out += F.entry_shards('one', client, sel, F.alphabet(client), judge_with_agreement)
+        cat = F.get_catalogue(client, depth)
+        entries = cat[0]
+        sel = F.select_entries(entries, tier, seed, quick_depth=2, quick_sample=10,
+                               thorough_cap=10 ** 6)
+        out += F.entry_shards('one', client, sel, F.alphabet(client), judge_with_agreement,
+                              cat=cat, build_ops=F.build_alphabet(client))
         # push slice: streams 1 + 2
-        pentries, pclosed, pkeys = F.get_catalogue(client, depth - 1, push=True)
+        pentries, pclosed, pkeys = F.get_catalogue(client, 3 if tier == 'thorough' else 2, push=True)
         pentries = [e for e in pentries if any(o[0] in ('push', 'PP') for o in e[0])]
         psel = F.select_entries(pentries, tier, seed, quick_depth=2, quick_sample=10)
         out += F.entry_shards('push', client, psel, F.alphabet(client, sids=(1, 2), push=True),
